@@ -610,7 +610,9 @@ def emit_coq(data, exceptions, known, repo_label="<repo>"):
 
 
 def load_known(verif):
-    kf = json.load(open(os.path.join(verif, "known_findings.json")))
+    sys.path.insert(0, os.path.join(verif, "tools"))
+    import vcheck
+    kf = vcheck.load_known_findings()
     out = []
     for k in kf.get("findings", []):
         if k.get("property") == "C14" and k.get("status") == "known":
